@@ -121,7 +121,7 @@ def run_check(ctx):
         raise MachineryError("IdbFile dump incomplete (%d base, %d files)" % (len(base), len(recs)))
     base = base[0]
     base_path = os.path.join(ctx.tmp, "base.in")
-    open(base_path, "wb").write(bytes(base["base"]))
+    open(base_path, "wb").write(Q.tobytes(base["base"]))
     ctx.assumptions += [
         "strings contain no NUL byte (the C query interface cannot show one)",
         "the types of a file share no true name with an already loaded type (merging of shared types is C13)",
@@ -147,7 +147,7 @@ def run_check(ctx):
         # a file that must be rejected whole: the one-argument functions (names, flags, counts) of every index
         # show whether anything of it became visible; the positional accessors are not needed for that
         r["maxpos"] = 0 if (r["cut"] != -1 and r["content"]) else MAXPOS
-        fb = bytes(r["file"])
+        fb = Q.tobytes(r["file"])
         if r["cut"] == -1 and r["kind"] == "ok":
             whole[(r["pre"], fb)] = r
         cases.append(case_for(cid, r, fb.decode("latin-1"), base_path))
@@ -168,7 +168,7 @@ def run_check(ctx):
     ctx.notes["prefix_files"] = sum(1 for r in recs if r["cut"] != -1)
     ctx.notes["damaged_header_files"] = sum(1 for r in recs if r["kind"] not in ("ok", "idmatch", "modok"))
     for r in recs[:: max(1, len(recs) // 4)][:4]:
-        ctx.sample(dict(file=bytes(r["file"]).decode("latin-1"), request=r["kind"], preloaded=r["pre"], minor=r["minor"],
+        ctx.sample(dict(file=Q.tobytes(r["file"]).decode("latin-1")[:400], file_bytes=len(Q.tobytes(r["file"])), request=r["kind"], preloaded=r["pre"], minor=r["minor"],
                         cut=r["cut"], error_flag=r["err"], records_visible=sum(len(r["glob"][k]) for k in Q.KINDS)))
 
     phases["judge"] = round(time.time() - t0, 1)
@@ -186,7 +186,7 @@ def judge(ctx, table, r, out, whole, base):
     what = "%s file (%s, format %d.%d, %d records, preloaded: %s%s)" % (
         "generated" if r["kind"] != "ext" else "real", r["kind"], r["major"], r["minor"], r["nrec"], r["pre"],
         ", cut at byte %d" % r["cut"] if r["cut"] != -1 else "")
-    payload = dict(file=bytes(r.get("bytes") or r["file"]).decode("latin-1"), request=r["kind"], preloaded=r["pre"],
+    payload = dict(file=Q.tobytes(r.get("bytes") or r["file"]).decode("latin-1"), request=r["kind"], preloaded=r["pre"],
                    cut=r["cut"], spec_error_flag=r["err"], stderr=out["stderr"])
     classes = []
     rr = out["r"]
@@ -201,7 +201,7 @@ def judge(ctx, table, r, out, whole, base):
     allowed = [(r["err"], r["glob"], True)]
     if r["cut"] != -1 and not r["content"]:
         # only trailing white space is missing: flagged-and-nothing or loaded-whole, both are fine
-        twin = whole.get((r["pre"], bytes(r["full"])))
+        twin = whole.get((r["pre"], Q.tobytes(r["full"])))
         if twin is None:
             raise MachineryError("no whole-file twin for a white-space cut")
         base_tables = base["glob"] if r["pre"] == "base" else {k: [] for k in Q.KINDS}
@@ -227,7 +227,7 @@ def judge(ctx, table, r, out, whole, base):
         return
     # re-serialisation, when the file was loaded
     if not flag and r["rw"]:
-        exp = bytes(r["rw"])
+        exp = Q.tobytes(r["rw"])
         got = rw["text"].encode("latin-1") if isinstance(rw, dict) and "text" in rw else None
         if got != exp:
             cl = ["C12-alt-names-lost"] if has_alt_names(full_tables) else []
@@ -251,7 +251,7 @@ def replay_histories(ctx, table, res, hdump, base_path):
         raise MachineryError("no history dumped")
     cases, index = [], {}
     for n, h in enumerate(hs):
-        texts = [bytes(f).decode("latin-1") for f in h["files"]]
+        texts = [Q.tobytes(f).decode("latin-1") for f in h["files"]]
         hd = h["hdrs"]
         maxidx = h["gnext"] + 1
         for staged in (True, False):
@@ -272,7 +272,7 @@ def replay_histories(ctx, table, res, hdump, base_path):
         what = "history of %d files in formats %s (%s, preloaded: %s)" % (
             len(h["files"]), ", ".join("3.%d" % m for m in h["minors"]),
             "each loaded before the next is requested" if staged else "requested together", h["pre"])
-        payload = dict(files=[bytes(f).decode("latin-1") for f in h["files"]], minors=h["minors"], preloaded=h["pre"],
+        payload = dict(files=[Q.tobytes(f).decode("latin-1") for f in h["files"]], minors=h["minors"], preloaded=h["pre"],
                        staged=staged, stderr=results[cid]["stderr"])
         rr = results[cid]["r"]
         deaths = [x for x in rr if Q.died(x)]
@@ -293,16 +293,16 @@ def replay_histories(ctx, table, res, hdump, base_path):
                 "%s(%s%s) = %r, expected %r" % (fn, i, "" if n is None else ", %s" % n, g, e) for fn, i, n, e, g in d[:4])), payload)
             continue
         got = rw["text"].encode("latin-1") if isinstance(rw, dict) and "text" in rw else None
-        if got != bytes(h["rw"]):
+        if got != Q.tobytes(h["rw"]):
             ctx.violation("%s: InterrogateDatabase::write afterwards gives different bytes" % what,
-                          dict(payload, expected=bytes(h["rw"]).decode("latin-1"), observed=None if got is None else got.decode("latin-1")))
+                          dict(payload, expected=Q.tobytes(h["rw"]).decode("latin-1"), observed=None if got is None else got.decode("latin-1")))
     ctx.cov["evaluations"] += len(index)
     ctx.cov["traces_validated_against_impl"] += len(index)
     ctx.cov["distinct_nontrivial"] += len(index)
     ctx.notes["histories"] = len(hs)
     ctx.notes["history_replays"] = len(index)
     h = hs[len(hs) // 2]
-    ctx.sample(dict(history=[bytes(f).decode("latin-1") for f in h["files"]], formats=h["minors"], preloaded=h["pre"],
+    ctx.sample(dict(history=[Q.tobytes(f).decode("latin-1") for f in h["files"]], formats=h["minors"], preloaded=h["pre"],
                     elements_visible=len(h["glob"]["e"])))
 
 
